@@ -1,4 +1,4 @@
-"""C17 - loopless_solution removes cycles without changing what matters (add_loopless: not applicable, MILP).
+"""C17 - loopless_solution removes cycles without changing what matters; add_loopless on the MILP contract.
 
 Real code executed: loopless_solution, _add_cycle_free, Model.optimize, get_solution, bounds setters, contexts -
 on the stub.  Symbolic: bounds (reversibility patterns arise from their signs) and, in one variant, the
@@ -9,7 +9,7 @@ from cobra.exceptions import OptimizationError
 from cobra.flux_analysis.loopless import loopless_solution
 
 from vlib import env, networks
-from vlib.lpspec import fba_lp, zabs
+from vlib.lpspec import exists_point, fba_lp, zabs
 from vlib.observe import observe, same
 from vlib.runner import H
 from vlib.vsym import lift, rv
@@ -115,6 +115,81 @@ def c17_loopless_solution(E, templates=(("T3", ("R1", "R2", "R3")), ("T3", ("EX_
     E.prove(z3.Implies(z3.And(*cons), tot_w >= tot_v - (rv(10 * E.tol) if not E.symbolic else 0)), "no-removable-cycle-left")
 
 
+def c17_add_loopless(E, templates=(("T3", ("R1", "R2")), ("T3", ("EX_A", "R3")), ("T10", ("R3", "EX_A")), ("T12", ("R2", "R3")))):
+    """add_loopless on the MILP contract of the stub (one binary indicator per internal reaction, enumerated inside the
+    formula; the null-space rows are the float SVD of the concrete stoichiometry).  Oracle: steady-state, in-bounds
+    distributions in which no elementary internal cycle runs in its orientation (checks/c05.elementary_cycles)."""
+    from cobra.flux_analysis.loopless import add_loopless
+    from checks.c05 import cycle_free, elementary_cycles
+    env.for_path(E)
+    tid, which = E.pick("template", templates)
+    m = networks.build(tid)
+    # the bounds are set before add_loopless, or afterwards (within the largest bound the model had at that time; the
+    # symbolic reactions are closed or at the template's bounds meanwhile)
+    when = E.pick("bounds_set", ["before-add_loopless", "after-add_loopless(closed-meanwhile)", "after-add_loopless"])
+    if when == "before-add_loopless":
+        networks.symbolic_bounds(E, m, which=list(which), delta=0.01)
+    elif when == "after-add_loopless(closed-meanwhile)":
+        for rid in which:
+            m.reactions.get_by_id(rid).knock_out()
+    obj = networks.T[tid]["objectives"][0]
+    if E.pick("objective_on", ["boundary-reaction", "cycle-reaction"]) == "cycle-reaction":
+        obj = {"R1": 1}
+    m.objective = {m.reactions.get_by_id(r): c for r, c in obj.items()}
+    direction = E.pick("direction", ["max", "min"])
+    m.objective_direction = direction
+    E.note(template=tid, symbolic=list(which), objective=sorted(obj), direction=direction, bounds_set=when)
+    if when != "before-add_loopless":
+        add_loopless(m)
+        networks.symbolic_bounds(E, m, which=list(which), delta=0.01)
+    ids = [r.id for r in m.reactions]
+    cycles = elementary_cycles(m)
+    lp = fba_lp(m)
+    def cf_relaxed(pt, slack):
+        return z3.And(*[z3.Or(*[(pt[r] <= rv(slack)) if s_ > 0 else (pt[r] >= -rv(slack)) for r, s_ in c.items()])
+                        for c in cycles]) if cycles else z3.BoolVal(True)
+
+    exists = exists_point(E, lp, "cycle_free_point_exists", extra=cf_relaxed, tag="cf_any")
+    content = {r.id: (dict((mt.id, c) for mt, c in r.metabolites.items()), r.lower_bound, r.upper_bound) for r in m.reactions}
+    if when == "before-add_loopless":
+        add_loopless(m)
+    for r in m.reactions:
+        now = (dict((mt.id, c) for mt, c in r.metabolites.items()), r.lower_bound, r.upper_bound)
+        E.prove(now[0] == content[r.id][0] and E.all_of([E.eq(now[1], content[r.id][1]), E.eq(now[2], content[r.id][2])]),
+                "add_loopless-leaves-reactions-unchanged", reaction=r.id)
+    try:
+        sol = m.optimize()
+        raised = None
+    except OptimizationError as e:
+        sol, raised = None, e
+    if not exists:
+        E.prove(raised is not None or sol.status != "optimal", "not-optimal-without-a-cycle-free-distribution")
+        return
+    E.prove(raised is None and sol is not None and sol.status == "optimal", "optimal-when-a-cycle-free-distribution-exists",
+            got=repr(raised) if raised else getattr(sol, "status", None))
+    if sol is None or sol.status != "optimal":
+        return
+    v1 = {i: lift(sol.fluxes[i]) for i in ids}
+    tol = rv(0) if E.symbolic else rv(E.tol)
+    for met in m.metabolites:
+        tot = rv(0)
+        for r in met.reactions:
+            tot = tot + lift(r._metabolites[met]) * v1[r.id]
+        E.prove(E.eq(tot, 0), "steady-state", met=met.id)
+    for r in m.reactions:
+        E.prove(E.all_of([E.le(r.lower_bound, sol.fluxes[r.id]), E.le(sol.fluxes[r.id], r.upper_bound)]), "in-bounds", reaction=r.id)
+    # every optimal solution reported is cycle-free (GLPK replays: a flux below the tolerance counts as zero)
+    cf = []
+    for c in cycles:
+        cf.append(z3.Or(*[(v1[r] <= tol) if s_ > 0 else (v1[r] >= -tol) for r, s_ in c.items()]))
+    E.prove(z3.And(*cf) if cf else True, "reported-solution-is-cycle-free")
+    cv = lp.lin(obj, v1)
+    E.prove(E.eq(sol.objective_value, cv), "objective_value=c.v")
+    w = lp.fresh_point(E, "better")
+    better = (lp.lin(obj, w) > cv + 10 * tol) if direction == "max" else (lp.lin(obj, w) < cv - 10 * tol)
+    E.prove(z3.Not(z3.And(lp.feasible(w), cycle_free(cycles, w), better)), "optimum=best-cycle-free-objective")
+
+
 def c17_given(E):
     return c17_loopless_solution(E, templates=(("T3", ("R2", "R3")), ("T3", ("R1", "EX_A"))), given=("given-optimal-vector",))
 
@@ -131,6 +206,9 @@ HARNESSES = [
     H("c17_given", c17_given, quick=dict(max_paths=6000, time_budget=60), thorough=dict(max_paths=100000, time_budget=300),
       bounds="T3 with 2 symbolic reactions; the starting flux vector itself symbolic (5 reals), assumed steady-state, in "
              "bounds and optimal as documented"),
+    H("c17_add_loopless", c17_add_loopless, quick=dict(max_paths=6000, time_budget=70), thorough=dict(max_paths=100000, time_budget=500),
+      bounds="add_loopless then optimize on the MILP contract: T3 / T10 (3 resp. 2 internal reactions = binary indicators, all "
+             "assignments enumerated in the formula), 2 symbolic reactions; objective on a boundary or a cycle reaction; max/min"),
     H("c17_thorough", c17_thorough, tiers=("thorough",), thorough=dict(max_paths=300000, time_budget=600),
       bounds="T3, T4 with 4, T6 with 3 symbolic reactions"),
 ]
